@@ -446,7 +446,13 @@ fn to_source_span(src: &NamedSource<String>, location: &Location) -> Option<Sour
             let start_byte = if char_offset == 0 {
                 0
             } else {
-                s.char_indices().nth(char_offset).map(|(i, _)| i)?
+                match s.char_indices().nth(char_offset) {
+                    Some((i, _)) => i,
+                    // The position just after the last character (an error at the end of the
+                    // input) is a position of the text as well, as in the byte-offset branch.
+                    None if s.chars().count() == char_offset => s.len(),
+                    None => return None,
+                }
             };
 
             // End in characters (exclusive)
